@@ -7,7 +7,7 @@
    Record ids are 0,1,2,... in write order; view = all ids in the retained files read oldest to newest.   *)
 From Coq Require Import List ZArith Bool.
 Import ListNotations.
-Require Import V.C23.Model V.C23.Proofs V.C23.Multi.
+Require Import V.C23.Model V.C23.Proofs V.C23.Multi V.C23.Newest.
 Open Scope Z_scope.
 
 (* Retained files read oldest to newest, followed by what is still buffered, hold exactly the records
@@ -48,6 +48,20 @@ Print Assumptions rotate_only_at_threshold.
 Theorem no_rotation_no_loss : forall c t0 fu ops, keep c = O -> dropped (run c t0 fu ops) = O.
 Proof. exact no_rotation_no_loss_l. Qed.
 Print Assumptions no_rotation_no_loss.
+
+(* The newest file holds every record since the last rotation: main ++ buffer hold exactly the records
+   since .. next-1, where [since] is the stream position at which the current main file was created (first open,
+   or the rotation that renamed its predecessor away) -- in every state incl. every crash state. *)
+Theorem newest_holds_all_since_rotation : forall c t0 fu ops, let s := run c t0 fu ops in
+  oids (mainf s) ++ ids (bufc s) = seq (since s) (next s - since s) /\ (since s <= next s)%nat.
+Proof. exact newest_l. Qed.
+Print Assumptions newest_holds_all_since_rotation.
+
+(* ... and the rotated copies, oldest first, hold exactly dropped .. since-1 *)
+Theorem rotated_copies_hold_the_rest : forall c t0 fu ops, let s := run c t0 fu ops in
+  view (removelast (files s)) = seq (dropped s) (since s - dropped s) /\ (dropped s <= since s)%nat.
+Proof. exact olds_l. Qed.
+Print Assumptions rotated_copies_hold_the_rest.
 
 (* ---- several Logs per Logger (mrun c n ...: n logs, every logger operation visits all of them phase by phase,
    the crash fuel is handed from log to log: a crash point is any primitive operation of any log) ---- *)
